@@ -576,3 +576,57 @@ silent("C18", "local renamed in the points property",
         "            combos = itertools.product(*[grid.points for grid in self.grid_list])\n            return combos\n\n        return points_combinations\n"))
 
 VARIANTS = V
+
+# ------------------------------------------------------------------------------------------ C15
+fire("C15", "third-order Bell term loses its multiplicity 3", "T1.faa-di-bruno-coefficients/ode._transform_ode_from_derivs/b[2]",
+     ("sub", "ode.py", "coeff_a_mtr[3] * 3 * derivs[0] * derivs[1]", "coeff_a_mtr[3] * derivs[0] * derivs[1]"))
+fire("C15", "second-order ODE forgets g'' in the first-derivative coefficient", "T1.faa-di-bruno-coefficients/ode._transform_ode_from_derivs/b[1]",
+     ("sub", "ode.py", "        coeff_b[1] += coeff_a_mtr[2] * derivs[1]\n", ""))
+fire("C15", "g' squared written as 2 g'", "T1.faa-di-bruno-coefficients/ode._transform_ode_from_derivs/b[2]",
+     ("sub", "ode.py", "coeff_b[2] += coeff_a_mtr[2] * derivs[0] ** 2", "coeff_b[2] += coeff_a_mtr[2] * derivs[0] * 2"))
+fire("C15", "derivative methods passed in the wrong order", "T1.faa-di-bruno-coefficients/ode._transform_ode_from_rtransform",
+     ("sub", "ode.py", "    deriv_func = [tf.deriv, tf.deriv2, tf.deriv3]\n    return _transform_ode_from_derivs",
+      "    deriv_func = [tf.deriv, tf.deriv3, tf.deriv2]\n    return _transform_ode_from_derivs"))
+fire("C15", "derivative matrix transposed", "T2.derivative-matrix/ode._derivative_transformation_matrix",
+     ("sub", "ode.py", "deriv_transf[i, j] = float(bell(i + 1, j + 1, derivs_at_pt))", "deriv_transf[j, i] = float(bell(i + 1, j + 1, derivs_at_pt))"))
+fire("C15", "Bell indices off by one", "T2.derivative-matrix/ode._derivative_transformation_matrix",
+     ("sub", "ode.py", "float(bell(i + 1, j + 1, derivs_at_pt))", "float(bell(i + 1, j, derivs_at_pt))"))
+fire("C15", "explicit form adds the lower terms", "T3.explicit-form/ode._rearrange_to_explicit_ode",
+     ("sub", "ode.py", "        result = result - b * y[i]\n", "        result = result + b * y[i]\n"))
+fire("C15", "explicit form divides by the wrong coefficient", "T3.explicit-form/ode._rearrange_to_explicit_ode",
+     ("sub", "ode.py", "    return result / coeff_b[-1]\n", "    return result / coeff_b[0]\n"))
+fire("C15", "coefficients evaluated at the new variable instead of inverse(r)", "T4.first-order-system/ode.solve_ode_bvp.func/last-row",
+     ("sub", "ode.py", "            orig_dom = transform.inverse(x)\n            dy_dx = _transform_and_rearrange_to_explicit_ode(orig_dom, y, coeffs, transform, fx)\n        else:\n            coeffs_mt = _evaluate_coeffs_on_points(x, coeffs)\n            dy_dx = _rearrange_to_explicit_ode(y, coeffs_mt, fx(x))\n        # (*y[1:, :],) returns a tuple of all rows excluding the first row.\n        #    This is due to conversion to first-order ODE form.",
+      "            orig_dom = x\n            dy_dx = _transform_and_rearrange_to_explicit_ode(orig_dom, y, coeffs, transform, fx)\n        else:\n            coeffs_mt = _evaluate_coeffs_on_points(x, coeffs)\n            dy_dx = _rearrange_to_explicit_ode(y, coeffs_mt, fx(x))\n        # (*y[1:, :],) returns a tuple of all rows excluding the first row.\n        #    This is due to conversion to first-order ODE form."))
+fire("C15", "system rows shifted the wrong way", "T4.first-order-system/ode.solve_ode_ivp.func/row",
+     ("sub", "ode.py", "        #    This is due to conversion to system of first-order ODE form.\n        return np.vstack((*y[1:, :], dy_dx))",
+      "        #    This is due to conversion to system of first-order ODE form.\n        return np.vstack((*y[:-1, :], dy_dx))"))
+fire("C15", "chain-rule matrix of the initial data taken at the transformed point", "T5.initial-data-mapping/ode.solve_ode_ivp/y0",
+     ("sub", "ode.py", "        deriv = _derivative_transformation_matrix(\n            [transform.deriv, transform.deriv2, transform.deriv3],\n            x_span[0],",
+      "        deriv = _derivative_transformation_matrix(\n            [transform.deriv, transform.deriv2, transform.deriv3],\n            transform.transform(x_span[0]),"))
+fire("C15", "initial derivatives multiplied by the matrix instead of solved", "T5.initial-data-mapping/ode.solve_ode_ivp/y0",
+     ("sub", "ode.py", "        y_derivs = solve(deriv, np.array(y0[1:]))\n", "        y_derivs = deriv.dot(np.array(y0[1:]))\n"))
+fire("C15", "span not transformed", "T5.initial-data-mapping/ode.solve_ode_ivp/span",
+     ("sub", "ode.py", "        x_span = transform.transform(np.array(list(x_span)))\n", "        x_span = np.array(list(x_span))\n"))
+fire("C15", "returned derivatives converted at the transformed point", "T6.returned-derivatives/ode.solve_ode_",
+     ("sub", "ode.py", "deriv = _derivative_transformation_matrix(deriv_funcs, pt[i], order - 1)", "deriv = _derivative_transformation_matrix(deriv_funcs, transf_pts[i], order - 1)"))
+fire("C15", "returned derivatives: the function row is skipped", "T6.returned-derivatives/ode.solve_ode_",
+     ("sub", "ode.py", "        new_interpolate[0, :] = interpolated[0, :]\n", ""))
+fire("C15", "dense output evaluated at the original points", "T6.returned-derivatives/ode.solve_ode_",
+     ("sub", "ode.py", "        interpolated = result.sol(transf_pts)\n", "        interpolated = result.sol(pt)\n"))
+fire("C15", "boundary residual indexes the wrong axis", "T7.boundary-data/ode.solve_ode_bvp.bc",
+     ("sub", "ode.py", "            conds.append(bonds[i][deriv] - value)\n", "            conds.append(bonds[deriv % 2][i] - value)\n"))
+fire("C15", "mesh not transformed", "T7.boundary-data/ode.solve_ode_bvp/mesh",
+     ("sub", "ode.py", "        res = solve_bvp(func, bc, pts_tf, y=initial_guess_y", "        res = solve_bvp(func, bc, x, y=initial_guess_y"))
+silent("C15", "third-order terms collected in one statement per coefficient",
+       ("sub", "ode.py", "        coeff_b[1] += coeff_a_mtr[3] * derivs[2]\n        coeff_b[2] += coeff_a_mtr[3] * 3 * derivs[0] * derivs[1]\n        coeff_b[3] += coeff_a_mtr[3] * derivs[0] ** 3\n",
+        "        a3 = coeff_a_mtr[3]\n        coeff_b[1:4] += np.array([a3 * derivs[2], 3 * a3 * derivs[1] * derivs[0], a3 * derivs[0] * derivs[0] * derivs[0]])\n"))
+silent("C15", "coefficient transformation as a loop over Bell polynomials",
+       ("sub", "ode.py", "    if total > 1:\n        coeff_b[1] += coeff_a_mtr[1] * derivs[0]\n    if total > 2:\n        coeff_b[1] += coeff_a_mtr[2] * derivs[1]\n        coeff_b[2] += coeff_a_mtr[2] * derivs[0] ** 2\n    if total > 3:\n        coeff_b[1] += coeff_a_mtr[3] * derivs[2]\n        coeff_b[2] += coeff_a_mtr[3] * 3 * derivs[0] * derivs[1]\n        coeff_b[3] += coeff_a_mtr[3] * derivs[0] ** 3\n",
+        "    for k in range(1, min(total, 4)):\n        for j in range(1, k + 1):\n            for i_pt in range(len(x)):\n                coeff_b[j, i_pt] += coeff_a_mtr[k, i_pt] * float(bell(k, j, derivs[:, i_pt]))\n"))
+silent("C15", "explicit form accumulates the lower terms first",
+       ("sub", "ode.py", "    result = fx\n    # Go through all rows except the last-element.\n    for i, b in enumerate(coeff_b[:-1]):\n        # array of size N: a_k(x_n) * (d^k y(x_n) / d x^k)\n        result = result - b * y[i]\n\n    return result / coeff_b[-1]\n",
+        "    lower = sum(b * y[i] for i, b in enumerate(coeff_b[:-1]))\n    return (fx - lower) / coeff_b[-1]\n"))
+silent("C15", "matrix loop written with explicit Bell orders",
+       ("sub", "ode.py", "    for i in range(0, order):\n        for j in range(0, i + 1):\n            deriv_transf[i, j] = float(bell(i + 1, j + 1, derivs_at_pt))\n",
+        "    for n_ in range(1, order + 1):\n        for k_ in range(1, n_ + 1):\n            deriv_transf[n_ - 1, k_ - 1] = float(bell(n_, k_, derivs_at_pt))\n"))
